@@ -9,10 +9,11 @@ namespace eng {
 // true if no cycle is reachable from `root` over the edges a printer may follow
 // (a conservative superset: every node-valued accessor except the documented
 // back links enclosing/owner/master/decl_set/home/lexical region/from/iteration...)
-bool printable_acyclic(const Entity& root, std::size_t* visited = nullptr);
+bool printable_acyclic(const Entity& root, std::size_t* visited = nullptr, std::string* why = nullptr);
 
 PrintResult guarded_print(const ipr::Lexicon& lex, PrintWhat what, const void* target, bool locations);
 
 void print_op(World& w, const Op& op);
+void print_sweep(World& w, std::size_t cap_per_pool);
 
 }   // namespace eng
